@@ -15,5 +15,6 @@ func TestMain(m *testing.M) {
 		"C17glue":  C17glue,
 		"C09mcrew": C09mcrew,
 		"C08mcrew": C08mcrew,
+		"C12mcrew": C12mcrew,
 	})
 }
